@@ -27,6 +27,8 @@ static void exec_twin(const Json &plan, RunResult &rr, Hist &h)
                 if (m) {
                         if (which & 1)
                                 m->set("skip", (int64_t) (((uint64_t) m->geti("skip") + (uint64_t) alt.geti("skip") + 1) % 4096));
+                        if (which & 8) // a few bytes inside the page as well: every buffer, the contexts included, moves relative to 64-byte lines
+                                m->set("sub", (int64_t) (1 + ((uint64_t) alt.geti("skip") * 7 + 3) % 63));
                         if (which & 2)
                                 m->set("fill", (int64_t) (m->geti("fill") + alt.geti("fill") + 1));
                         if (which & 4)
@@ -35,7 +37,7 @@ static void exec_twin(const Json &plan, RunResult &rr, Hist &h)
                 return q;
         };
         auto run1 = [&](const Json &q, RunResult &r, Hist &hh) {
-                g_arena.run_begin((size_t) ((uint64_t) q.at("mem").geti("skip")));
+                g_arena.run_begin((size_t) ((uint64_t) q.at("mem").geti("skip")), (size_t) ((uint64_t) q.at("mem").geti("sub")));
                 p->exec(q, r, hh);
                 g_arena.run_end();
         };
@@ -52,8 +54,21 @@ static void exec_twin(const Json &plan, RunResult &rr, Hist &h)
         h.rec("twin", { (int64_t) (ha.h == hb.h), (int64_t) ha.events, (int64_t) hb.events });
         h.unusual++;
         COUNT("mem.garbage_prefill_twin");
-        if (ha.h == hb.h && ra.oracle == rb.oracle)
+        if (ha.h == hb.h && ra.oracle == rb.oracle) {
+                // fourth run: addresses shifted by a few bytes inside their pages.  How many calls a session needs with starved buffers
+                // may legitimately depend on alignment (the library's temporary-buffer paths), so for the streaming profiles only the
+                // results are compared here: final output bytes, verdicts, one-shot results.
+                if (!strcmp(p->name, "deflate") || !strcmp(p->name, "oneshot") || !strcmp(p->name, "inflate") || !strcmp(p->name, "kern")) {
+                        RunResult rd;
+                        Hist hd;
+                        run1(variant(9), rd, hd);
+                        COUNT("mem.subpage_address_twin");
+                        bool same = !strcmp(p->name, "kern") ? hd.h == ha.h : hd.res == ha.res;
+                        if (!same || rd.oracle != ra.oracle)
+                                rr.fail("C15.address_dependence", strf("same plan, same inputs: results differ when every buffer is moved by a few bytes inside its page (inner profile %s)", p->name));
+                }
                 return;
+        }
         // classify: which single knob is enough?
         const char *names[3] = { "buffer addresses", "prior contents of context / level buffer / output space", "vector and mask register contents at call entry" };
         const char *oracles[3] = { "C15.address_dependence", "C15.garbage_dependence", "C15.register_dependence" };
